@@ -75,6 +75,16 @@ class Eval:
             if name in ("Lt", "Le", "Gt", "Ge", "Eq", "Ne") and len(args) == 2:
                 x, y = self.key(args[0]), self.key(args[1])
                 return int({"Lt": x < y, "Le": x <= y, "Gt": x > y, "Ge": x >= y, "Eq": x == y, "Ne": x != y}[name])
+            if name == "is_multiple_of" and len(args) == 2:
+                x, m = self.key(args[0]), self.key(args[1])
+                if x < 0 or m < 0:
+                    raise ErrPath()
+                return int(x == 0 if m == 0 else x % m == 0)
+            if name == "Not" and len(args) == 1:
+                x = self.key(args[0])
+                if x not in (0, 1):
+                    raise ErrPath()
+                return 1 - x
             if name == "BitAnd" and len(args) == 2:
                 x, y = self.key(args[0]), self.key(args[1])
                 if x < 0 or y < 0:
@@ -115,6 +125,11 @@ class Eval:
                 if m <= 0:
                     raise ErrPath()
                 return -(-x // m) * m
+            if nm == "is_multiple_of" and len(t["a"]) == 2:
+                x, m = self.poly(sym.operand(t["a"][0])), self.poly(sym.operand(t["a"][1]))
+                if x < 0 or m < 0:
+                    raise ErrPath()
+                return int(x == 0 if m == 0 else x % m == 0)
             if nm in OPTION_TRANSPARENT and t["a"]:
                 return self.poly(sym.operand(t["a"][0]))
             tg = [u for u in self.p.targets(fn, t) if u in self.p.fns and self.p.fns[u].blocks and u.startswith("poulpy_ckks::")]
